@@ -326,11 +326,13 @@ func (c *Conn) readUDP(b []byte) (*Conn, int, error) {
 		// get or create and cache the consistent connection for the socket
 		// that has the same local addr and remote addr.
 		uc, ok := c.connUDP.getConn(c.p, c.fd, rAddr)
-		if g.UDPReadTimeout > 0 {
-			_ = uc.SetReadDeadline(time.Now().Add(g.UDPReadTimeout))
-		}
 		if !ok {
 			g.onOpen(uc)
+		}
+		// after the open notification: the timer closes the session when it
+		// fires, and a session must not be closed before it has been opened.
+		if g.UDPReadTimeout > 0 {
+			_ = uc.SetReadDeadline(time.Now().Add(g.UDPReadTimeout))
 		}
 		dstConn = uc
 	}
